@@ -22,6 +22,13 @@ def c2(ctx):
     notes.ungroup_order(ctx)
 
 
+def c5(ctx):
+    # group_notes as the forward direction: the type filter precedes joining, nothing buffered is lost, a joined head keeps its fields
+    notes.grouping_order(ctx)
+    f = ctx.p.func("simfile.notes.group:group_notes.attach_tail")
+    records.rebuild_site(ctx, f, "simfile.notes.group.NoteWithTail", 1, "head", {"tail_beat": "tail.beat"}, "joined head")
+
+
 def c3(ctx):
     records.enum_dispatch(ctx, UNGROUP + ".check_orphan", "orphaned_notes")
 
@@ -47,5 +54,6 @@ CLAUSES = [
     ("C10.2", "no tail is lost; tails released in order (R-ORDER)", c2),
     ("C10.3", "orphan policy dispatch is total (R-ENUM)", c3),
     ("C10.4", "the heap order is the note position order (R-CMP, shared with C07)", c4),
+    ("C10.5", "the forward direction (group_notes): filter before joining, nothing lost, joined head keeps its fields (shared with C09)", c5),
     ("C10.sweep", "package-wide census of record constructions and enum dispatches (thorough)", sweep),
 ]
